@@ -24,6 +24,7 @@ meta = {
    "tool": "tools/seeded_confirm.sh (git worktree of /repo at base_commit under /tmp, removed afterwards)",
    "ran": ["git apply patch.diff", "go build ./...", demo + "   (with the change)", "go test -vet=off -count=1 -timeout 180m ./...   (with the change, demonstration files removed)", demo + "   (change reverted)"],
    "outcome": conf},
+ "history": old.get("history", "caught on first evaluation"),
  "detection": {"tool": "tools/seeded_eval.sh (patch applied to a scratch copy of /repo's working tree; every armed check run on it)", **ev},
 }
 json.dump(meta, open(os.path.join(d, "meta.json"), "w"), indent=1)
